@@ -127,7 +127,9 @@ def odd_keys(ctx):
             for k2 in ("x", k1, odd[(odd.index(k1) + 3) % len(odd)]):
                 if sep in k2 or not sep_safe(k2, sep):
                     continue
-                for tree in ({k1: {k2: 1, "y": 2}}, {"p": {k1: {k2: None}}, "q": 3}, {k1: {optional(k2): "v"}}, {k1: 5, "z": {k1: 6}}):
+                leafy = [{"user" + sep + "id": 1}, {"a" + sep + "b": {"c" + sep + "d": 2}}]
+                for tree in ({k1: {k2: 1, "y": 2}}, {"p": {k1: {k2: None}}, "q": 3}, {k1: {optional(k2): "v"}}, {k1: 5, "z": {k1: 6}},
+                             {"rows": {k2: leafy}}, {k1: ({"x" + sep + "y": 1},), "t": [[{"m" + sep + "n": 0}]]}, {"w": {optional(k2): leafy}}):
                     ctx.count("odd_key_trees")
                     flat_d = dict(flatten(tree, sep))
                     try:
